@@ -199,4 +199,111 @@ theorem disaggCell_spec {c : Cell} {res n : Nat} {ws : List Rat} {fields : List 
         · simp [renorm]
 
 
+
+theorem map_getElem!_range' {α} [Inhabited α] (l : List α) :
+    (List.range l.length).map (fun n => l[n]!) = l := by
+  apply List.ext_getElem
+  · simp
+  · intro i h1 h2
+    simp at h1
+    simp [h1]
+
+theorem forall2_map_eq {α β γ} {R : α → β → Prop} {l : List α} {r : List β} (h : Forall2 R l r)
+    (f : β → γ) (g : α → γ) (hr : ∀ a b, R a b → f b = g a) : r.map f = l.map g := by
+  induction h with
+  | nil => rfl
+  | cons hab _ ih => simp [hr _ _ hab, ih]
+
+/-- the periods of the cells `disaggCell` produces are exactly the observable sub-periods, in order -/
+theorem disaggCell_periods {c : Cell} {res n : Nat} {ws : List Rat} {fields : List String}
+    {cells : List Cell} (hk : KN c.values)
+    (h : disaggCell c res n ws fields = .ok cells) :
+    cells.map (fun o => (o.ps, o.pe)) = obsSubs c res n := by
+  unfold disaggCell at h
+  simp only [bind, Except.bind] at h
+  split at h
+  · cases h
+  · cases hw : weightedTable c (renorm (ws.take (obsSubs c res n).length)) with
+    | error e => simp [hw] at h
+    | ok weighted =>
+      simp only [hw] at h
+      have hW := weightedTable_spec hw
+      have hF := mapM_ok_forall2 h
+      rw [forall2_map_eq hF (fun o => (o.ps, o.pe)) (fun k => (obsSubs c res n)[k]!)
+        (fun k o hko => (subCell_spec hk hW hko).2.2.2.1)]
+      exact map_getElem!_range' _
+
+/-- `part` are the sub-period cells of `c`: their periods are exactly the sub-periods of `c`
+(`res` months each, from `c.ps`: `subperiods`) that are over at the evaluation date, in order; same
+slice and evaluation date; and (when there is any) every selected field adds up to the original,
+component by component -/
+def SubCells (res : Nat) (F : String → Bool) (c : Cell) (part : List Cell) : Prop :=
+  (∃ n, part.map (fun o => (o.ps, o.pe)) = obsSubs c res n) ∧
+  (∀ o ∈ part, o.md = c.md ∧ o.ev = c.ev ∧ o.kind = .cell ∧ o.pe ≤ o.ev) ∧
+  (part ≠ [] → ∀ f, F f = true → ∀ i, total part f i = cellField c f i)
+
+theorem disaggSlice_spec {sl out : List Cell} {res : Nat} {ws : List Rat} {fields : List String}
+    (hk : ∀ c ∈ sl, KN c.values) (hws : ws ≠ []) (h : disaggSlice sl res ws fields = .ok out) :
+    ∃ parts, out = parts.flatten ∧ Forall2 (SubCells res fun f => fields.contains f) sl parts := by
+  unfold disaggSlice at h
+  cases hr : periodResolution sl with
+  | error e => simp [hr, bind, Except.bind] at h
+  | ok sres =>
+    simp only [hr, bind, Except.bind] at h
+    cases hm : sl.mapM (fun c => disaggCell c res (sres / (res : Int)).toNat ws fields) with
+    | error e => simp [hm] at h
+    | ok parts =>
+      simp only [hm, pure, Except.pure, Except.ok.injEq] at h
+      refine ⟨parts, h.symm, (mapM_ok_forall2 hm).imp fun c part hc hp => ?_⟩
+      obtain ⟨_, h2, h3⟩ := disaggCell_spec (hk c hc) hws hp
+      refine ⟨⟨_, disaggCell_periods (hk c hc) hp⟩, fun o ho => ⟨(h2 o ho).1, (h2 o ho).2.1, (h2 o ho).2.2.1, ?_⟩, h3⟩
+      have hm' := (h2 o ho).2.2.2.1
+      unfold obsSubs at hm'
+      have := (List.mem_filter.mp hm').2
+      rw [(h2 o ho).2.1]
+      simpa using this
+
+theorem forall2_singleton {α β} {R : α → List β → Prop} (l : List α) (f : α → β)
+    (h : ∀ a ∈ l, R a [f a]) : Forall2 R l (l.map fun a => [f a]) := by
+  induction l with
+  | nil => exact .nil
+  | cons a rest ih => exact .cons (h a (by simp)) (ih fun b hb => h b (by simp [hb]))
+
+theorem flatten_map_singleton {α} (l : List α) : (l.map fun c => [c]).flatten = l := by
+  induction l with
+  | nil => rfl
+  | cons a rest ih => simp [ih]
+
+theorem forall2_flatten_slices {R : Cell → List Cell → Prop}
+    {slices : List (Metadata × List Cell)} {pss : List (List (List Cell))}
+    (h : Forall2 (fun sl ps => Forall2 R sl.2 ps) slices pss) :
+    Forall2 R (slices.flatMap (·.2)) pss.flatten := by
+  induction h with
+  | nil => exact .nil
+  | cons hab _ ih => simpa using hab.append ih
+
+
+
+/-! ### prefix sums of `Spec.C18.premiumSpec` -/
+
+theorem prefixFold (l : List Rat) (pre : List Rat) (s : Rat) :
+    (l.foldl (fun (acc : List Rat × Rat) x => (acc.1 ++ [acc.2 + x], acc.2 + x)) (pre, s)).1 =
+      pre ++ (List.range l.length).map fun k => s + (l.take (k + 1)).sum := by
+  induction l generalizing pre s with
+  | nil => simp
+  | cons a rest ih =>
+    rw [List.foldl_cons, ih, List.length_cons, List.range_succ_eq_map, List.map_cons, List.map_map]
+    simp only [List.append_assoc, List.singleton_append, List.take_succ_cons, List.sum_cons,
+      List.take_zero, List.sum_nil, add_zero]
+    congr 2
+    apply List.map_congr_left
+    intro k _
+    simp only [Function.comp, Nat.succ_eq_add_one, List.take_succ_cons, List.sum_cons]; ring
+
+theorem prefixSums_eq (l : List Rat) :
+    prefixSums l = (List.range l.length).map fun k => (l.take (k + 1)).sum := by
+  unfold prefixSums
+  rw [prefixFold]; simp
+
+
 end Bermuda.Units
